@@ -46,11 +46,11 @@ class ReduceCapacity:
 
         def activate(e: Event) -> None:
             new_capacity = original_capacity * factor
-            resource._capacity - new_capacity
+            # Keep held + available == capacity: take the removed capacity out of
+            # the free amount (it goes negative while holders exceed the reduced
+            # capacity, which blocks new acquirers until enough is released).
+            resource._available -= resource._capacity - new_capacity
             resource._capacity = new_capacity
-            # Clamp available to not exceed new capacity
-            if resource._available > new_capacity:
-                resource._available = new_capacity
             logger.info(
                 "[FaultInjection] Reduced '%s' capacity to %.1f (factor=%.2f) at %s",
                 resource_name,
@@ -64,6 +64,7 @@ class ReduceCapacity:
             resource._capacity = original_capacity
             # Restore available by the same amount capacity increased
             resource._available += capacity_increase
+            resource._wake_waiters()
             logger.info(
                 "[FaultInjection] Restored '%s' capacity to %.1f at %s",
                 resource_name,
